@@ -147,7 +147,7 @@ func (c *SymbolNode) SetTokenType(value int) {
 func (c *SymbolNode) Ancestry() []rune {
 	if c.ancestry == nil || len(c.ancestry) == 0 {
 		if c.parent != nil {
-			c.ancestry = c.parent.Ancestry()
+			c.ancestry = append([]rune{}, c.parent.Ancestry()...)
 		}
 		if c.character != 0 {
 			c.ancestry = append(c.ancestry, c.character)
